@@ -272,10 +272,13 @@ def valid_task(t):
     nvalid = 0
     distinct = set()
     def words_of(t):
+        k = 0
         for w in _valid_words(t):
             yield w, False
-            if t.get("bare") and t["kind"] == "edits":
-                yield w, True  # the same edit without the require line in front: the edited tokens are the first ones of the script
+            k += 1
+            # the same edit without the require line in front (the edited tokens are the first ones of the script); quick: every other edit
+            if t.get("bare") and t["kind"] == "edits" and (t.get("rich") or k % 2 == 0):
+                yield w, True
 
     for w, bare in words_of(t):
         word = (() if (t["kind"] == "requires" or bare) else G.PREFIX) + tuple(w)
